@@ -5,7 +5,7 @@
    completions and Shutdown calls (repaired ordering: Serve counts itself active
    while it still holds the mutex).  The data-race clause is NOT proved here
    (partial): see DESIGN.md; the harness runs under the race detector. *)
-From Radius Require Import Base.Bytes Base.Res Model.Shutdown Proofs.ShutdownInv Proofs.Shutdown.
+From Radius Require Import Base.Bytes Base.Res Model.Shutdown Proofs.ShutdownInv Proofs.Shutdown Proofs.ShutdownShape.
 Open Scope nat_scope.
 
 Theorem C07_invariant : forall s, reachable false s -> Inv s.
@@ -68,6 +68,12 @@ Theorem C07_legacy_ordering_refuted :
     In (TServe 7 S_registered) (threads (run true init (firstn 14 es))).
 Proof. exact legacy_ordering_refuted. Qed.
 
+(* the steps of the model are the statements of server-packet.go: on every path through Serve, the goroutine of a
+   datagram and Shutdown, the synchronisation operations read from the working tree (the Sync lists of Gen/Consts.v) are the
+   operations of the model's steps, in the same order (Proofs/ShutdownShape.v spells the paths out) *)
+Theorem C07_code_order : code_order.
+Proof. exact code_order_holds. Qed.
+
 (* non-vacuity: a reachable state with a running handler, a waiting Shutdown and a refused Serve *)
 Example C07_example :
   let es := [ESpawnServe 1; EStep 0 ARun; EStep 0 ARun; EStep 0 ARun; EStep 0 ARun; EStep 0 ARun;
@@ -92,3 +98,4 @@ Print Assumptions C07_shutdown_err_only_if_ctx_done.
 Print Assumptions C07_no_internal_deadlock_partial.
 Print Assumptions C07_waiting_shutdown_waits_for_a_holder.
 Print Assumptions C07_legacy_ordering_refuted.
+Print Assumptions C07_code_order.
